@@ -69,7 +69,7 @@ def _fill(inst_class, frequencies):
     """
 
     ctype_info = inst_class.get_flat_type_info(inst_class)
-    cfreq_key = inst_class, 0
+    cfreq_key = None, inst_class, 0
 
     for k, v in ctype_info.items():
         if v.Attributes.min_occurs > 0:
@@ -221,7 +221,9 @@ class SimpleDictDocument(DictDocument):
 
             idx, nidx = 0, 0
             pkey = member.path[0]
-            cfreq_key = cls, idx
+            # (member name, class, index) for every object on the way down:
+            # two members of the same class are counted separately.
+            cfreq_key = None, cls, idx
 
             indexes = deque(RE_HTTP_ARRAY_INDEX.findall(orig_k))
 
@@ -279,7 +281,7 @@ class SimpleDictDocument(DictDocument):
 
                     cinst = ninst
 
-                cfreq_key = cfreq_key + (ncls, nidx)
+                cfreq_key = cfreq_key + (pkey, ncls, nidx)
                 idx = nidx
                 ctype_info = ncls.get_flat_type_info(ncls)
 
@@ -310,10 +312,10 @@ class SimpleDictDocument(DictDocument):
         if validator is self.SOFT_VALIDATION:
             logger.debug("\tvalidate_freq: \n%r", frequencies)
             for k, d in frequencies.items():
-                for i, path_cls in enumerate(k[:-1:2]):
+                for i, path_cls in enumerate(k[1::3]):
                     attrs = self.get_cls_attrs(path_cls)
                     if not attrs.validate_freq:
-                        logger.debug("\t\tskip validate_freq: %r", k[:i*2])
+                        logger.debug("\t\tskip validate_freq: %r", k[:i*3])
                         break
                 else:
                     path_cls = k[-2]
